@@ -144,6 +144,9 @@ var authValues = []authValue{
 	{"bearer-jwt-unknown-kid", "bearer", "jwt-unknown-kid"},
 	{"bearer-jwt-hs256-forged", "bearer", "jwt-hs256-forged"},
 	{"bearer-jwt-without-iss", "bearer", "jwt-without-iss"},
+	// more than one white space character between the scheme and the credentials
+	{"bearer-two-blanks-jwt-valid", "bearer", "jwt-valid"},
+	{"bearer-tab-jwt-bad-signature", "bearer", "jwt-bad-signature"},
 	{"bearer-jwt-es384-under-the-kid-of-the-es256-key", "bearer", "jwt-alg-mismatch"},
 	{"bearer-jws-alg-none", "bearer", "jws-alg-none"},
 	{"bearer-three-garbage-segments", "bearer", "garbage-segments"},
@@ -298,7 +301,16 @@ func newWorld() *world {
 			if a.Kind == "scheme-only" {
 				w.headers[a.Name] = "Bearer"
 			} else {
-				w.headers[a.Name] = "Bearer " + jwts[a.Kind]
+				sep := " "
+
+				switch {
+				case strings.Contains(a.Name, "two-blanks"):
+					sep = "  "
+				case strings.Contains(a.Name, "-tab-"):
+					sep = " \t"
+				}
+
+				w.headers[a.Name] = "Bearer" + sep + jwts[a.Kind]
 			}
 		}
 
